@@ -87,8 +87,14 @@ def install(I):
         st.event("open", s, path, mode)
         return s
     I.open_model = open_model
-    ns["open"] = Builtin("open", lambda i, a, k: open_model(a[0], a[1] if len(a) > 1 else k.get("mode", "r")),
-                         "io: open() either raises OSError or returns a fresh stream")
+    def _b_open(i, a, k):
+        # how the file is opened beyond path and mode (buffering, encoding, errors, newline ...) is recorded for the contracts
+        names = ("buffering", "encoding", "errors", "newline", "closefd", "opener")
+        opts = {n_: v_ for n_, v_ in zip(names, a[2:])}
+        opts.update({k_: v_ for k_, v_ in k.items() if k_ != "mode"})
+        i.st.event("open-options", a[0], a[1] if len(a) > 1 else k.get("mode", "r"), opts)
+        return open_model(a[0], a[1] if len(a) > 1 else k.get("mode", "r"))
+    ns["open"] = Builtin("open", _b_open, "io: open() either raises OSError or returns a fresh stream")
 
     @meth(Stream, "close")
     def _s_close(i, a, k):
